@@ -70,7 +70,8 @@ def subterms(t):
     while stack:
         x = stack.pop()
         if isinstance(x, tuple):
-            yield x
+            if x and isinstance(x[0], str):
+                yield x
             for y in x:
                 if isinstance(y, tuple):
                     stack.append(y)
